@@ -249,6 +249,10 @@ type C17Op struct {
 	File string `json:"file,omitempty"`
 	Name string `json:"name,omitempty"`
 	Tag  string `json:"tag,omitempty"`
+	// Accept: the import's handler uses a reporter that accepts (returns nil
+	// for) every error, so collisions are all reported and the failure is
+	// visible through Handler.Error() rather than through an early abort.
+	Accept bool `json:"accept,omitempty"`
 }
 
 type C17Case struct {
@@ -267,7 +271,8 @@ func genC17(t *rapid.T) C17Case {
 			e := extUniverse[rapid.IntRange(0, len(extUniverse)-1).Draw(t, "ext")]
 			c.Ops = append(c.Ops, C17Op{Kind: "lookup-ext", Name: e[0], Tag: e[1]})
 		default:
-			c.Ops = append(c.Ops, C17Op{Kind: "import", File: symPoolNames[rapid.IntRange(0, len(symPoolNames)-1).Draw(t, "file")]})
+			c.Ops = append(c.Ops, C17Op{Kind: "import", File: symPoolNames[rapid.IntRange(0, len(symPoolNames)-1).Draw(t, "file")],
+				Accept: rapid.IntRange(0, 2).Draw(t, "accept") == 0})
 		}
 	}
 	return c
@@ -305,8 +310,23 @@ func execC17(t *testing.T, c C17Case) *Verdict {
 			if f == nil {
 				continue
 			}
-			h := reporter.NewHandler(nil)
+			var reported []string
+			var rep reporter.Reporter
+			if op.Accept {
+				rep = reporter.NewReporter(func(e reporter.ErrorWithPos) error {
+					reported = append(reported, e.Error())
+					return nil
+				}, nil)
+			}
+			h := reporter.NewHandler(rep)
 			err := syms.Import(f.fd, h)
+			if err == nil {
+				// with an accepting reporter the failure shows in the handler
+				err = h.Error()
+			}
+			if err != nil && len(reported) > 0 {
+				err = fmt.Errorf("%w: %s", err, strings.Join(reported, "; "))
+			}
 			want := model.tryImport(op.File)
 			desc := fmt.Sprintf("op %d Import(%s) [err=%v]", i, op.File, err)
 			if err != nil {
